@@ -127,7 +127,7 @@ def main():
             "enable": "go1.26.8 test -c -tags verif (the harness module replaces github.com/codenotary/immudb with /repo)",
             "baseline_off_cmd": BASELINE["cmd"],
             "source_commits": hook_commits(),
-            "add_only": True,
+            "add_only": False,
         },
         "engines": [{"name": "sim", "path": "/verif/sim", "serves_properties": sorted(claimed),
                      "kind_free_text": "deterministic simulation: tape (one seed), cooperative scheduler in a testing/synctest bubble, shadow disk with crash images, tape minimiser, replay files"}],
